@@ -10,7 +10,8 @@ from ..families import (sample_config, make_data, make_affinity, build_model, FA
                         config_signature, gemini_ref_spec)
 from ..refs import ref_gemini
 from ..seams import World, ModelHarness
-from .common import sample_constraints, sample_sched, decorate, expected_batches, exc_site, is_harness_frame, quiet
+from .common import (sample_constraints, sample_sched, decorate, expected_batches, exc_site, is_harness_frame, quiet,
+                     sample_prefix, second_dataset, run_generic_op)
 
 PROPERTY = "C03"
 RULE = ("one run = one seeded fit (sparse families: optionally followed by a short path) of a sampled family x GEMINI x solver "
@@ -42,20 +43,19 @@ def generate(rng):
     if cfg["n"] >= 3 and rng.random() < 0.3:
         deco = sample_constraints(rng, cfg["n"])
     cfg["decorate"] = deco
-    ops = [{"op": "fit"}]
-    if fam.get("sparse") and cfg["d"] >= 2 and rng.random() < 0.25:
-        ops.append({"op": "path", "args": {"alpha_multiplier": choice(rng, [3.0, 10.0]), "min_features": cfg["d"] - 1,
-                                          "max_patience": 1}})
+    cfg["n2"] = cfg["n"] if rng.random() < 0.5 else rng.randint(max(2, cfg["params"]["n_clusters"]), 12)
+    ops = sample_prefix(rng, cfg, p_any=0.3, max_len=3) + [{"op": "fit", "data": 0}]
+    if fam.get("sparse") and cfg["d"] >= 2 and rng.random() < 0.4:
+        ops.append({"op": "path", "data": 0, "args": {"alpha_multiplier": choice(rng, [3.0, 10.0]), "min_features": cfg["d"] - 1,
+                                                      "max_patience": 1}})
     sigma = weighted(rng, [(0.0, 4), (0.3, 3), (1.0, 2), (3.0, 1)])
     opt = "teleport" if sigma > 0 else weighted(rng, [("real", 3), ("scaled", 1)])
     n_steps = cfg["params"]["max_iter"] * (1 if fam.get("categorical") else expected_batches(cfg["n"], cfg["params"].get("batch_size")))
-    if n_steps <= 5:
-        judge = list(range(1, n_steps + 1))
-    else:
-        judge = sorted(rng.sample(range(1, n_steps + 1), 5))
-    judge += sorted(rng.sample(range(n_steps + 1, n_steps + 30), 3))   # steps of the path, if any
+    # every optimiser step of the history (prefix, judged fit, path) is judged with this probability
+    expected = n_steps * (1 + 0.5 * len(ops)) + (10 if len(ops) > 1 else 0)
+    p_judge = 1.0 if expected <= 6 else min(1.0, 7.0 / expected)
     faults = {"sched": sample_sched(rng, decorated=bool(deco)), "opt": opt, "opt_scale": choice(rng, [0.1, 5.0]),
-              "teleport_sigma": sigma, "teleport_seed": rng.randrange(2 ** 31), "judge_steps": judge,
+              "teleport_sigma": sigma, "teleport_seed": rng.randrange(2 ** 31), "p_judge": p_judge, "judge_seed": rng.randrange(2 ** 31),
               "coord_seed": rng.randrange(2 ** 31)}
     return {"property": PROPERTY, "scenario": "step_gradient", "config": cfg, "ops": ops, "faults": faults}
 
@@ -81,11 +81,14 @@ class GradOracle:
         self.res, self.world, self.h, self.cfg = res, world, harness, cfg
         self.model = harness.model
         self.fam = FAMILIES[cfg["family"]]
-        self.spec = gemini_ref_spec(cfg)
         self.deco = deco
         self.coord_rs = coord_rs
         self.judge = set()
         self.global_step = 0
+
+    @property
+    def spec(self):
+        return gemini_ref_spec(self.cfg)      # the GEMINI the user has configured NOW (set_params may have changed it)
 
     # the differentiated objective
     def F(self):
@@ -138,7 +141,7 @@ class GradOracle:
     def on_step(self, world, opt, params, grads):
         self.global_step += 1
         res = self.res
-        if self.global_step not in self.judge:
+        if not (self.judge_rs.rand() < self.p_judge):
             return
         m = self.model
         Xb, Ab = self.h.cur_batch
@@ -266,31 +269,24 @@ def execute(record):
                 deco = None
         h.wrap_batchify()
         oracle = GradOracle(res, world, h, cfg, deco, np.random.RandomState(faults.get("coord_seed", 0)))
-        oracle.judge = set(faults.get("judge_steps", []))
+        oracle.judge_rs = np.random.RandomState(faults.get("judge_seed", 0))
+        oracle.p_judge = faults.get("p_judge", 1.0)
         world.step_hooks.append(oracle.on_step)
         world.val_budget = 400
         world.step_budget = 4000
+        import copy as _copy
+        cur_cfg = _copy.deepcopy(cfg)
+        oracle.cfg = cur_cfg
+        pool = [(X, A), second_dataset(cfg)]
         with world, quiet():
             for op in record["ops"]:
-                world.begin_op()
-                log.emit("OP", op=op["op"], phase="begin")
-                try:
-                    if op["op"] == "fit":
-                        model.fit(X, A)
-                    else:
-                        model.path(X, A, **op.get("args", {}))
-                        res.probe("paths_run")
-                    log.emit("OP", op=op["op"], phase="end")
-                except (SimFault, SimBudget):
-                    raise
-                except Exception as e:
-                    if is_harness_frame(e):
-                        raise
-                    # whether fit/path complete is not this property's statement (C04/C07/C17); stop judging here
-                    log.emit("OP", op=op["op"], phase="raised", exc=type(e).__name__)
-                    res.probe("op_raised:" + type(e).__name__ + "@" + exc_site(e))
-                    break
-        if log.counts.get("STEP", 0) == 0 and not any(k.startswith("op_raised") for k in res.probes):
+                outcome = run_generic_op(op, model, world, pool, cur_cfg, res, log)
+                if op["op"] == "path" and outcome == "ok":
+                    res.probe("paths_run")
+                if outcome.startswith("raised"):
+                    # whether fit/path complete is not this property's statement (C04/C07/C17)
+                    res.probe("op_raised:" + op["op"] + ":" + outcome.split(":")[1])
+        if log.counts.get("STEP", 0) == 0 and not any(k.startswith("op_raised") or k.endswith("_crashed") for k in res.probes):
             raise HarnessError("optimiser seam never fired")
     except SimBudget:
         res.probe("budget_exhausted")
